@@ -166,6 +166,20 @@ func genC14(t *rapid.T, tier string) (*World, any) {
 		}
 		w.Put(f.Path, content)
 	}
+	// a rules file that is a symbolic link to a file with another name inside the root: read through its name it shows the markers too
+	if chance(t, 12, "symlink") && len(p.Files) > 0 {
+		f := C14File{Path: p.Root + "/rules/REQUEST-900-EXCLUSION-RULES-BEFORE-CRS.conf", Segs: drawConfFile(t, "linked")}
+		content := f.render(p.Initial.Version, p.Initial.Year, shortVersions(p.Initial.Version)[0])
+		if p.CRLF {
+			content = strings.ReplaceAll(content, "\n", "\r\n")
+		}
+		w.Put(p.Root+"/local/exclusions-before.rules", content)
+		if w.Links == nil {
+			w.Links = map[string]string{}
+		}
+		w.Links[f.Path] = "../local/exclusions-before.rules"
+		p.Files = append(p.Files, f)
+	}
 	w.Put(p.Root+"/regex-assembly/942100.ra", "foo\n")
 	w.Put(p.Root+"/README.md", "# OWASP CRS ver.1.0.0\nver:'OWASP_CRS/1.0.0'\n")
 	nr := drawInt(t, 1, 3, "nruns")
@@ -269,7 +283,7 @@ func versionClass(v string) string {
 func init() {
 	register(&Property{
 		ID: "C14", Level: "exploration",
-		Rule: "scenario = 1-4 .conf / .example files rendered from a template whose marker slots the driver knows (header line in both product spellings, copyright end year in both spellings, ver:'OWASP_CRS/..', SecComponentSignature, tx.crs_setup_version; each 0-n times, two on one line; near-miss lines that are no markers; missing final newline) showing an initial version, x histories of 1-3 invocations with independent versions from the accepted spellings (x.y.z, -rc1, -RC1, -rc.1, v prefix, +build, x.y, -dev, multi-dash) and four-digit years, each under a seeded schedule. Oracle after every invocation: each file equals the template rendered with that invocation's version and year in every slot (crs_setup_version: all digits of V or the digits of major.minor.patch), all other bytes untouched (a missing final newline may be added); repeating the last invocation is a byte no-op; other files unchanged. Non-trivial = every scenario; distinct = distinct (world, history).",
+		Rule: "scenario = 1-4 .conf / .example files rendered from a template whose marker slots the driver knows (header line in both product spellings, copyright end year in both spellings, ver:'OWASP_CRS/..', SecComponentSignature, tx.crs_setup_version; each 0-n times, two on one line; near-miss lines that are no markers; missing final newline; sometimes one of them a symbolic link to a differently named file inside the root) showing an initial version, x histories of 1-3 invocations with independent versions from the accepted spellings (x.y.z, -rc1, -RC1, -rc.1, v prefix, +build, x.y, -dev, multi-dash) and four-digit years, each under a seeded schedule. Oracle after every invocation: each file equals the template rendered with that invocation's version and year in every slot (crs_setup_version: all digits of V or the digits of major.minor.patch), all other bytes untouched (a missing final newline may be added); repeating the last invocation is a byte no-op; other files unchanged. Non-trivial = every scenario; distinct = distinct (world, history).",
 		Gen:  genC14, Eval: evalC14,
 		QuickChecks: 1000, ThoroughChecks: 20000, Timeout: 20 * time.Second,
 		Assumptions: []string{
